@@ -61,6 +61,14 @@ def random_case(rng, tier):
     media = [rng.choice(persist.MEDIA) for _ in range(3)]
     case = {'program': program, 'crashes': crashes, 'media': media, 'loader': rng.choice(['default', 'default', 'custom'])}
     if rng.random() < 0.3:
+        # steps that work on their arguments in place; checkpoints kept as Bundle objects or in the bundled persisters; the
+        # instance runs on for a few boundaries after its checkpoint before it is lost
+        for step in program['steps']:
+            if rng.random() < 0.6:
+                step['mutargs'] = True
+        case['media'] = [rng.choice(['bundle', 'bundle'] + list(persist.PERSISTER_MEDIA) + list(persist.MEDIA)) for _ in range(3)]
+        case['lag'] = {key: rng.randint(1, 3) for key in crashes if rng.random() < 0.7}
+    if rng.random() < 0.3:
         # "checkpointed and restored between the return and the next step": the pause is requested while the step function
         # runs, carried out with the transition the returned command asks for, and the checkpoint is written when the
         # listeners are told that the process is paused
@@ -71,6 +79,10 @@ def random_case(rng, tier):
 
 
 def shrink(case):
+    for key in list(case.get('lag') or {}):
+        candidate = copy.deepcopy(case)
+        del candidate['lag'][key]
+        yield candidate
     for key in ('pause_in_step', 'crash_on_paused', 'crash_on_played'):
         for i in range(len(case.get(key) or [])):
             candidate = copy.deepcopy(case)
@@ -104,7 +116,7 @@ def run(case):
     seams.begin_case()
     runner = persist.RestartRun(case['program'], case.get('crashes'), case.get('media'), case.get('loader', 'default'),
                                 pause_in_step=case.get('pause_in_step'), crash_on_paused=case.get('crash_on_paused'),
-                                crash_on_played=case.get('crash_on_played'))
+                                crash_on_played=case.get('crash_on_played'), lag=case.get('lag'))
     try:
         proc = runner.run()
         if runner.runaway is not None:
@@ -144,6 +156,9 @@ def _oracle(runner, proc, result, case):
     if model['waits']:
         result.counters['probe:wait_resumed_with_value'] += 1
     for event in events:
+        if event[0] == 'crash' and event[2] == 'lagged':
+            result.counters['probe:instance_ran_on_after_checkpoint'] += 1
+            continue
         if event[0] == 'crash':
             result.counters[f'medium:{event[3]}'] += 1
             if '-notification' in str(event[2]):
